@@ -301,21 +301,21 @@ def c19(ctx):
            extra=['-simulate', 'num=%d' % pick(ctx, 100, 1000), '-depth', '13', '-seed', str(ctx.seed)], workers=1, timeout=3000)
     # T: random trees with exotic shapes, hostile strings and strings / numbers harvested from the source
     trace = '%s/c19t.ndjson' % ctx.work
-    wd = ctx.t.record(['record-tree', '--count', str(pick(ctx, 4000, 60000)), '--seed', str(ctx.seed)], trace)
+    wd = ctx.t.record(['record-tree', '--count', str(pick(ctx, 4000, 60000)), '--seed', str(ctx.seed)] + (['--few'] if ctx.quick else []), trace)
     recs = [json.loads(l) for l in open(trace) if l.startswith('{')]
     st, verdicts = ctx.t.validate_trace('c19t', 'Trace_Ast', trace, 3000)
     if len(verdicts) != len(recs):
         raise ctx.t.ToolError('Trace_Ast judged %d of %d records' % (len(verdicts), len(recs)))
-    acc.add_stage('c19t', st, len(recs), [{'tree': recs[0]['t'], 'action': recs[0]['action'], 'framed': recs[0]['framed']}])
-    acc.distinct += len(set(json.dumps(r['t'], sort_keys=True) for r in recs))
+    acc.add_stage('c19t', st, len(recs), [{'tree': recs[-1].get('t'), 'action': recs[-1]['action'], 'framed': recs[-1]['framed']}], {'big_chains': sum(1 for r in recs if 'big' in r)})
+    acc.distinct += len(set(json.dumps(r.get('t', r.get('big')), sort_keys=True) for r in recs))
     for v in verdicts:
         if v['kinds']:
             r = recs[v['idx'] - 1]
-            acc.failures.append({'kinds': v['kinds'], 'vector': r, 'stage': 'c19t'})
+            acc.failures.append({'kinds': [k for k in v['kinds'] if k not in ('mode-mismatch', 'compile-panic')] or v['kinds'], 'vector': r, 'stage': 'c19t'})
     for f in wd:
         acc.failures.append(f)
     return result('model_checking', acc, True,
-                  'trees grown from 30 leaves built with every public constructor (including Precedence, nested List, Global/Positional, DefaultPrint, empty and newline-in-the-middle format lists) by wrapping in Not/Precedence or combining with a seed tree under And/Or/List on either side, exhaustively up to %d nodes and by random growth to depth 12; every format element list of length <= 3 over 7 element kinds (including the empty literal) in 5 positions; unit tables and count*unit for 6 counts per unit including floor((2^64-1)/unit)' % msize,
+                  'trees grown from 30 leaves built with every public constructor (including Precedence, nested List, Global/Positional, DefaultPrint, empty and newline-in-the-middle format lists) by wrapping in Not/Precedence or combining with a seed tree under And/Or/List on either side, exhaustively up to %d nodes and by random growth to depth 12; spines of 20..110 levels; left-deep chains of 300..5000 members (sent as a description and rebuilt by TLC) with the only action first, in the middle, last or absent; every format element list of length <= 3 over 7 element kinds (including the empty literal) in 5 positions; unit tables and count*unit for 6 counts per unit including floor((2^64-1)/unit)' % msize,
                   ['oracle: Ast.tla HasAction/NeedsFramed, each defined recursively and over the node set (InvTwoDefs); the replay builds the value through the public types (json_to_expr) and checks the projection round trip'])
 
 
@@ -442,6 +442,22 @@ def c10(ctx):
     t_sem(ctx, acc, 'c10longfmt', ['--profile', 'longfmt', '--no-warmup'] + (['--few'] if ctx.quick else []), ROUTE_KINDS, consts='CONSTANT MaxFiles = 3\nCONSTANT Static = FALSE\n')
     t_sem(ctx, acc, 'c10spine', ['--profile', 'spine', '--no-warmup'] + (['--few'] if ctx.quick else []), ROUTE_KINDS, consts='CONSTANT MaxFiles = 4\nCONSTANT Static = FALSE\n')
     t_sem(ctx, acc, 'c10mid', ['--count', str(pick(ctx, 40, 400)), '--seed', str(ctx.seed + 3), '--profile', 'chain', '--size', '30'], ROUTE_KINDS, consts='CONSTANT MaxFiles = 3\nCONSTANT Static = FALSE\n')
+    # the mode chosen for BIG expressions (300..1025 members): Trace_Ast rebuilds the chain from its description
+    bigtr = '%s/c10big.ndjson' % ctx.work
+    wd = ctx.t.record(['record-tree', '--count', '0', '--seed', str(ctx.seed), '--big', '1100'] + (['--few'] if ctx.quick else []), bigtr)
+    for f in wd:
+        f['stage'] = 'c10big'
+        acc.failures.append(f)
+    brecs = [json.loads(l) for l in open(bigtr) if l.startswith('{')]
+    stb, bver = ctx.t.validate_trace('c10big', 'Trace_Ast', bigtr, 3000)
+    if len(bver) != len(brecs) or not brecs:
+        raise ctx.t.ToolError('Trace_Ast judged %d of %d big chains' % (len(bver), len(brecs)))
+    acc.add_stage('c10big', stb, len(brecs), [{'chain': brecs[0]['big'], 'mode': brecs[0]['mode']}])
+    acc.programs = getattr(acc, 'programs', 0) + len(brecs)
+    for v in bver:
+        ks = [k for k in v['kinds'] if k in ('mode-mismatch', 'compile-panic')]
+        if ks:
+            acc.failures.append({'kinds': ks, 'chain': brecs[v['idx'] - 1]['big'], 'mode': brecs[v['idx'] - 1]['mode'], 'stage': 'c10big'})
     t_sem(ctx, acc, 'c10chain', ['--count', str(pick(ctx, 4, 40)), '--seed', str(ctx.seed), '--profile', 'chain', '--size', '300'], ROUTE_KINDS, consts='CONSTANT MaxFiles = %d\nCONSTANT Static = FALSE\n' % pick(ctx, 3, 8))
     return tv_result(acc, 'all multisets of up to %d actions from 12 action kinds (stdout/file x newline/NUL/format, file names from a pool of 3, print-file-fid, quit) as AND chain, OR chain and mixed; seeded random operator trees rich in actions; deep trees (40..240 levels) whose only frame-needing action sits at the bottom or in the first rule; every string a change introduced into the source and the special names of a Unix system as argument of every string-carrying test and action; formats of 20..129 elements; chains with up to 300 resources (destinations and matchers); checked: framed iff NeedsFramed, plain => no table, injective table equal to the required targets, stream decodes into frames whose routed records equal FindSem outputs' % pick(ctx, 2, 3), [])
 
